@@ -46,9 +46,12 @@ CHECKS = {
     "C14": ("E1", MC,
             "set iteration order is a symbolic schedule: set/frozenset in rnapolis.common are replaced by a stand-in whose order for "
             "hash-randomised elements is any permutation chosen by symbolic ints; CrossHair explores pairing tables x schedules and every output "
-            "must equal the real interpreter's; counterexamples are replayed with PYTHONHASHSEED 0..31 in fresh interpreters. Partial: "
-            "secondary-structure outputs of rnapolis.common only",
-            "assumes int/tuple-of-int sets iterate independently of the hash seed; annotator/parser/serialiser outputs are outside",
+            "must equal the real interpreter's; counterexamples are replayed with PYTHONHASHSEED 0..31 in fresh interpreters. E2 extensions: "
+            "Mapping2D3D under every order of every set of rnapolis.tertiary; the real annotator.main() with all output options where the name of the "
+            "temporary input copy is a symbolic string (outputs must be the same on every path); frame condition (module-level mutable state "
+            "unchanged) on every symbolic path of the PDB reader, confirmed by a fresh-vs-history differential before it is reported. Partial",
+            "assumes int/tuple-of-int sets iterate independently of the hash seed; set order inside annotator.find_pairs / the KD-tree (covered "
+            "by C03's symbolic candidate order), state hidden in closures or C extensions, and the other command-line tools are outside",
             "CrossHair symbolic execution with hash order as symbolic schedule", "5/C14"),
     "C03": ("E2", MC,
             "the discrete logic of the real find_pairs is explored on abstracted geometry (free boolean per candidate contact / angle test, free "
